@@ -547,7 +547,7 @@ def normalise_module(tree, module_name: str) -> int:
         r = ref.get(q)
         if r:
             if "guards" in r:
-                n += normalise_function(fn, r, parts=("eqs", "ifs"))
+                n += normalise_function(fn, r)
                 for step in (N2.merge_branch_assignments, N2.inline_new_locals, N2.inline_new_locals, N2._ifexp_calls, N2.ifexp_tests, N2.split_ifexp_statements, N2.expand_new_comprehensions, N2.contract_known_loops, N2.inline_new_locals, N2.contract_known_ifexp, N2.unguard, N2.guardify):
                     try:
                         n += step(fn, r)
